@@ -44,6 +44,13 @@ SOURCES = {
     "ct_bad": "def test(a: Qint10) -> bool:\n    return a[0] + undefined_name\n",
     "ct_narrow": "def test(a: Narrow) -> bool:\n    return a[0] ^ a[2]\n",
     "ct_narrow_bad": "def test(a: Narrow, b: bool) -> bool:\n    return a and b\n",
+    # same name, same body, same input width: only the order / names of the arguments differ
+    "swap_ab": "def test(a: bool, b: bool) -> bool:\n    return a and not b\n",
+    "swap_ba": "def test(b: bool, a: bool) -> bool:\n    return a and not b\n",
+    "swap_abc": "def test(a: bool, b: bool, c: bool) -> bool:\n    return a and not b\n",
+    "swap_cab": "def test(c: bool, a: bool, b: bool) -> bool:\n    return a and not b\n",
+    "swap_int_ab": "def test(a: Qint[2], b: Qint[2]) -> bool:\n    return a > b\n",
+    "swap_int_ba": "def test(b: Qint[2], a: Qint[2]) -> bool:\n    return a > b\n",
     "ifelse": "def test(a: Qint[2], b: bool) -> Qint[2]:\n    c = a\n    if b:\n        c = a + 1\n    else:\n        c = a ^ 1\n    return c\n",
     "forloop": "def test(a: Qlist[bool, 3]) -> bool:\n    s = False\n    for x in a:\n        s = s ^ x\n    return s\n",
 }
